@@ -21,6 +21,7 @@ from . import refcodec
 
 class StubDUL(object):
     instances = []
+    preload = None          # items for the script of the next stub created
 
     def __init__(self, store_in_file=None, get_file_cb=None, dul_socket=None,
                  max_pdu_length=65536):
@@ -35,6 +36,9 @@ class StubDUL(object):
         self.stopped = 0
         self.on_send = None     # optional callback(stub, entry)
         self.on_empty = None    # optional callback(stub) -> item when the script is empty
+        if StubDUL.preload:
+            self.script.extend(StubDUL.preload)
+            StubDUL.preload = None
         StubDUL.instances.append(self)
 
     # -- documented provider interface
